@@ -33,7 +33,8 @@ def phase_paths(run, pool):
     programs), all invariants on, and the result of every call compared across ALL these histories."""
     t = time.time()
     progs = (P.path_programs_c17() + P.large_programs_c17() + P.matrix_programs_c17() + P.key_programs_c17()
-             + P.steps_programs_c17() + P.interaction_programs_c17(run.tier) + P.abort_programs_c17())
+             + P.steps_programs_c17() + P.interaction_programs_c17(run.tier) + P.abort_programs_c17()
+             + (P.huge_programs_c17() if run.tier == "thorough" else []))
     n0 = run.evals
     table, conflicts = {}, []
 
@@ -52,7 +53,8 @@ def phase_paths(run, pool):
                 else "steps:" if c.get("steps") else "path:") + p["name"]
 
     pool.run(({"id": i, "prog_index": i, "kind": "program", "program": dict(p["program"], want_results=True), "name": p["name"],
-               "want_program": False, "deadline": 240, "run_seed": tag(p)} for i, p in enumerate(progs)), on)
+               "want_program": False, "deadline": 600 if p["name"].startswith("huge/") else 240, "run_seed": tag(p)}
+              for i, p in enumerate(progs)), on)
     for key, ia, ib in conflicts[:2]:
         pa, pb = dict(progs[ia]["program"], want_results=True), dict(progs[ib]["program"], want_results=True)
         run.violations.append(({"kind": "program", "run_seed": "history:" + progs[ib]["name"], "id": -1},
